@@ -4,10 +4,17 @@ emit('C16', '''C16 — Wire codecs round-trip, skip unknown parts, and are total
    every byte string by construction; that the model decoders ARE the real ones is the executed
    correspondence on arbitrary bytes (py/props/c16.py: round-trips, mutated encodings, random bytes,
    TLV lengths up to 0xffff).
-   PARTIAL: the NodeInfo round-trip (with the seven-addresses normalisation) is not yet proved as a
-   theorem; it is decided by the correspondence (ni_rt cases) and the python reference.''',
- ['Base','RangeMatch','Conn','NodeInfo','InitMsg','CodecProofs','DissectProofs'],
- [('rotation_roundtrip','CodecProofs.v','rot_roundtrip','rotation messages decode to what was encoded, whatever follows'),
+   PARTIAL: that the REAL decoders never panic, hang or allocate beyond the datagram is decided by the
+   correspondence run only (the model decoders are total by construction).''',
+ ['Base','RangeMatch','Conn','NodeInfo','NodeInfoProofs','InitMsg','CodecProofs','DissectProofs'],
+ [('nodeinfo_roundtrip','NodeInfoProofs.v','nodeinfo_roundtrip','node information decodes to exactly what was encoded up to the normalisation (at most seven addresses per family and entry, IPv6 before IPv4), whatever follows the end marker; ni_wf = what an honest encoder is given (16-byte ids, 6/18-byte addresses, claims of at most 16 address bytes, parts below 64 KiB)'),
+  ('nodeinfo_unknown_skipped','NodeInfoProofs.v','nodeinfo_unknown_skipped','a node-information part with an unknown tag is skipped'),
+  ('nodeinfo_total','NodeInfoProofs.v','nodeinfo_decode_total','the node-information decoder has no panic result for any byte string'),
+  ('rotation_roundtrip','CodecProofs.v','rot_roundtrip','rotation messages decode to what was encoded, whatever follows'),
   ('init_roundtrip','CodecProofs.v','initmsg_roundtrip','handshake messages (every stage, optional parts) decode to what was encoded'),
   ('init_unknown_skipped','CodecProofs.v','pp_unknown','a handshake part with an unknown tag is skipped'),
- ])
+ ],
+ tail='''
+Example C16_ex_wf : exists x, ni_wf x /\\ ni_peers x <> [] /\\ ni_claims x <> [].
+Proof. eexists. split; [exact ni_wf_example|]. split; discriminate. Qed.
+''')
